@@ -305,32 +305,11 @@ Proof.
   - split; [discriminate|]. intros (_ & ms' & E & L'). injection E as <-. rewrite L in L'. discriminate.
 Qed.
 
-(* the datagrams that end the responder thread (finding C19/killed-by-datagram) *)
-Definition killer (data : bytes) (p : parse) : bool :=
-  match utf8_decode (firstn recv_bufsize data) with
-  | None => true
-  | Some _ => match p with
-              | PScalar => true
-              | PStr s => contains K_SECoP s
-              | PArr es => existsb (elem_is K_SECoP) es
-              | _ => false
-              end
-  end.
-
-Lemma handle_spec data p :
-  handle data p = if killer data p
-                  then VKill (match utf8_decode (firstn recv_bufsize data) with None => EUnicodeDecode | Some _ => ETypeError end)
-                  else if is_request data p then VAnswer else VIgnore.
+Lemma handle_spec data p : handle data p = if is_request data p then VAnswer else VIgnore.
 Proof.
-  unfold handle, killer, is_request. destruct (utf8_decode (firstn recv_bufsize data)); [|reflexivity].
+  unfold handle, is_request. destruct (utf8_decode (firstn recv_bufsize data)); [|reflexivity].
   destruct p as [| |s0|es|ms]; try reflexivity.
   destruct (lookup K_SECoP ms) as [[v|]|]; reflexivity.
-Qed.
-
-Lemma killer_not_request data p : killer data p = true -> is_request data p = false.
-Proof.
-  unfold killer, is_request. destruct (utf8_decode (firstn recv_bufsize data)); [|reflexivity].
-  destruct p; try reflexivity; discriminate.
 Qed.
 
 Definition reply (l : listener) (i : input) : list (dest * bytes) :=
@@ -344,71 +323,45 @@ Theorem answers_iff l s data p a : st s = Listening ->
   outs (lstep l s (IRecv data p a)) = outs s ++ reply l (IRecv data p a).
 Proof.
   intro H. unfold lstep, reply. rewrite H, handle_spec.
-  destruct (killer data p) eqn:K.
-  - rewrite (killer_not_request _ _ K). cbn. symmetry. apply app_nil_r.
-  - destruct (is_request data p); cbn; [reflexivity | symmetry; apply app_nil_r].
+  destruct (is_request data p); cbn; [reflexivity | symmetry; apply app_nil_r].
 Qed.
 
-Theorem survives_iff l s data p a : st s = Listening ->
-  (st (lstep l s (IRecv data p a)) = Listening <-> killer data p = false) /\
-  (killer data p = true -> exists e, st (lstep l s (IRecv data p a)) = Killed e).
-Proof.
-  intro H. unfold lstep. rewrite H, handle_spec. destruct (killer data p).
-  - split; [split; discriminate | intros _; eexists; reflexivity].
-  - split; [|discriminate]. destruct (is_request data p); split; reflexivity.
-Qed.
+(* no datagram whatsoever ends the loop *)
+Theorem survives l s data p a : st s = Listening -> st (lstep l s (IRecv data p a)) = Listening.
+Proof. intro H. unfold lstep. rewrite H. destruct (handle data p); reflexivity. Qed.
 
-Definition benign (i : input) : Prop :=
-  match i with IRecv data p _ => killer data p = false | IError => False end.
+Definition is_recv (i : input) : Prop := match i with IRecv _ _ _ => True | IError => False end.
 
-Lemma loop_benign l ins : Forall benign ins -> forall s, st s = Listening ->
+Lemma loop_recv l ins : Forall is_recv ins -> forall s, st s = Listening ->
   st (fold_left (lstep l) ins s) = Listening /\
   outs (fold_left (lstep l) ins s) = outs s ++ flat_map (reply l) ins /\
   consumed (fold_left (lstep l) ins s) = (consumed s + length ins)%nat.
 Proof.
   induction 1 as [|i ins Hi _ IH]; intros s Hs.
   - cbn. rewrite app_nil_r. auto.
-  - destruct i as [data p a|]; [|contradiction]. cbn in Hi.
+  - destruct i as [data p a|]; [|contradiction].
     cbn [fold_left flat_map].
     pose proof (answers_iff l s data p a Hs) as O.
-    destruct (survives_iff l s data p a Hs) as [[_ S] _]. specialize (S Hi).
+    pose proof (survives l s data p a Hs) as S.
     destruct (IH _ S) as (I1 & I2 & I3). split; [exact I1|]. split.
     + rewrite I2, O, <- app_assoc. reflexivity.
     + rewrite I3. unfold lstep. rewrite Hs. destruct (handle data p); cbn; lia.
 Qed.
 
-Theorem keeps_answering l ins : l_enabled l = true -> Forall benign ins ->
+(* whatever is received -- any bytes, any JSON value -- an enabled responder goes on listening and has answered
+   exactly the requests, in order; only a socket error (shutdown) ends it *)
+Theorem keeps_answering l ins : l_enabled l = true -> Forall is_recv ins ->
   st (run l ins) = Listening /\ outs (run l ins) = outs (start l) ++ flat_map (reply l) ins.
 Proof.
   intros He Hb. unfold run. assert (st (start l) = Listening) as Hs by (cbn; rewrite He; reflexivity).
-  destruct (loop_benign l ins Hb _ Hs) as (A & B & _). auto.
+  destruct (loop_recv l ins Hb _ Hs) as (A & B & _). auto.
 Qed.
 
 Lemma not_listening_forever l ins : forall s, st s <> Listening -> fold_left (lstep l) ins s = s.
 Proof.
   induction ins as [|i ins IH]; intros s H; [reflexivity|].
-  cbn [fold_left]. assert (lstep l s i = s) as -> by (unfold lstep; destruct (st s); [contradiction| | |]; reflexivity).
+  cbn [fold_left]. assert (lstep l s i = s) as -> by (unfold lstep; destruct (st s); [contradiction| |]; reflexivity).
   apply IH. exact H.
-Qed.
-
-Lemma fold_left_app_lstep l a b s : fold_left (lstep l) (a ++ b) s = fold_left (lstep l) b (fold_left (lstep l) a s).
-Proof. apply fold_left_app. Qed.
-
-(* after a killer nothing is ever sent again, whatever is received *)
-Theorem killer_ends_everything l ins1 data p a ins2 : l_enabled l = true -> Forall benign ins1 ->
-  killer data p = true ->
-  outs (run l (ins1 ++ IRecv data p a :: ins2)) = outs (run l ins1) /\
-  exists e, st (run l (ins1 ++ IRecv data p a :: ins2)) = Killed e.
-Proof.
-  intros He Hb K. unfold run. rewrite fold_left_app_lstep. cbn [fold_left].
-  assert (st (start l) = Listening) as Hs by (cbn; rewrite He; reflexivity).
-  destruct (loop_benign l ins1 Hb _ Hs) as (A & _ & _).
-  set (s1 := fold_left (lstep l) ins1 (start l)) in *.
-  destruct (survives_iff l s1 data p a A) as [_ S]. destruct (S K) as (e & E).
-  pose proof (answers_iff l s1 data p a A) as O. cbn [reply] in O.
-  rewrite (killer_not_request _ _ K), app_nil_r in O.
-  rewrite not_listening_forever by (rewrite E; discriminate).
-  split; [exact O | eauto].
 Qed.
 
 (* ------------------------------------------------------------------ what is sent *)
@@ -429,15 +382,15 @@ Qed.
 Theorem run_sent_ok l ins : Forall (sent_ok l) (outs (run l ins)).
 Proof.
   unfold run. assert (Forall (sent_ok l) (outs (start l))) as H.
-  { cbn. destruct (l_bcast l); [apply answers_sent_ok | constructor]. }
+  { cbn. destruct (l_bcast l && l_enabled l); [apply answers_sent_ok | constructor]. }
   revert H. generalize (start l). induction ins as [|i ins IH]; intros s H; [exact H|].
   cbn [fold_left]. apply IH. apply lstep_sent_ok. exact H.
 Qed.
 
-(* a disabled responder that does not broadcast sends nothing *)
-Lemma run_disabled_silent l ins : l_enabled l = false -> l_bcast l = false -> outs (run l ins) = [].
+(* a disabled responder sends nothing at all *)
+Lemma run_disabled_silent l ins : l_enabled l = false -> outs (run l ins) = [] /\ st (run l ins) = NotListening.
 Proof.
-  intros He Hb. unfold run. rewrite not_listening_forever; cbn; rewrite ?He, ?Hb; [reflexivity | discriminate].
+  intros He. unfold run. rewrite not_listening_forever; cbn; rewrite ?He, ?andb_false_r; [auto | discriminate].
 Qed.
 
 (* the advertised ports are those of the tcp interfaces handed to the constructor *)
@@ -450,9 +403,8 @@ Proof.
   - intros (sch & H1 & H2). exists (sch, p). split; [reflexivity|]. apply filter_In. auto.
 Qed.
 
-(* everything an enabled (or non-broadcasting) responder ever sends: an announcement of one of the tcp ports of
-   the interface list, within the limit, valid UTF-8, a JSON object that reads back as port, identity and the
-   (possibly shortened) description *)
+(* everything a responder ever sends: an announcement of one of the tcp ports of the interface list, within the
+   limit, valid UTF-8, a JSON object that reads back as port, identity and the (possibly shortened) description *)
 Definition good_datagram (c : cfg) (o : dest * bytes) : Prop :=
   exists scheme p,
     In (scheme, p) (c_ifaces c) /\ starts_with K_tcp (uri (scheme, p)) = true /\
@@ -463,24 +415,14 @@ Definition good_datagram (c : cfg) (o : dest * bytes) : Prop :=
       prefix_of (l_desc (init c)) (desc0 c).
 
 Theorem sends_good c ins : wf_cfg c -> (forall p, In p (ports_of (c_ifaces c)) -> p <= 65535) ->
-  l_enabled (init c) = true \/ c_bcast c = false ->
   Forall (good_datagram c) (outs (run (init c) ins)).
 Proof.
-  intros Hwf Hports [He|Hb].
+  intros Hwf Hports. destruct (l_enabled (init c)) eqn:He.
   - pose proof (run_sent_ok (init c) ins) as H. eapply Forall_impl; [|exact H].
     intros o (p & Hp & E). destruct (init_frame c) as (_ & _ & EP & _). rewrite EP in Hp.
     pose proof (Hports p Hp) as Hle. apply ports_of_in in Hp. destruct Hp as (scheme & H1 & H2).
     exists scheme, p. split; [exact H1|]. split; [exact H2|]. split; [exact E|]. rewrite E. split.
     + apply bounded; assumption.
     + destruct (wellformed c p Hwf Hle) as (W1 & W2 & W3). eexists. split; [exact W1|]. split; [exact W2 | exact W3].
-  - destruct (l_enabled (init c)) eqn:He.
-    + (* enabled: as above *)
-      pose proof (run_sent_ok (init c) ins) as H. eapply Forall_impl; [|exact H].
-      intros o (p & Hp & E). destruct (init_frame c) as (_ & _ & EP & _). rewrite EP in Hp.
-      pose proof (Hports p Hp) as Hle. apply ports_of_in in Hp. destruct Hp as (scheme & H1 & H2).
-      exists scheme, p. split; [exact H1|]. split; [exact H2|]. split; [exact E|]. rewrite E. split.
-      * apply bounded; assumption.
-      * destruct (wellformed c p Hwf Hle) as (W1 & W2 & W3). eexists. split; [exact W1|]. split; [exact W2 | exact W3].
-    + rewrite run_disabled_silent; [constructor | exact He |].
-      destruct (init_frame c) as (_ & _ & _ & EB). rewrite EB. exact Hb.
+  - destruct (run_disabled_silent (init c) ins He) as [-> _]. constructor.
 Qed.
